@@ -62,6 +62,11 @@ var c16Positions = []c16Pos{
 	{"ifne-arg", true, func(w string) string { return "SET a = if_not_exists(" + w + ", :v)" }},
 	{"append-arg", true, func(w string) string { return "SET a = list_append(" + w + ", :l)" }},
 	{"set-path-head", true, func(w string) string { return "SET " + w + ".x = :v" }},
+	// below the top level: a reserved word is no bare name at ANY step of a document path
+	{"path-member-dot", false, func(w string) string { return "mm." + w + " = :v" }},
+	{"path-member-function", false, func(w string) string { return "attribute_exists(mm." + w + ")" }},
+	{"set-path-member", true, func(w string) string { return "SET mm." + w + " = :v" }},
+	{"remove-path-member", true, func(w string) string { return "REMOVE mm." + w }},
 }
 
 var c16Values = val.Item{":v": val.Str("x"), ":n": val.Num("1"), ":s": val.SS("x"), ":l": val.List(val.Str("x"))}
@@ -116,7 +121,7 @@ func evalExpr(expr string, update bool, names map[string]string, values val.Item
 }
 
 func (p *c16) reserved(x *res, words []string, ctx *runner.Ctx) {
-	items := []val.Item{{"a": val.Str("x"), "l": val.List(val.Str("x"))}, {"zzz": val.Str("only an unrelated attribute")}}
+	items := []val.Item{{"a": val.Str("x"), "l": val.List(val.Str("x")), "mm": val.Map(map[string]val.V{"k": val.Str("x")})}, {"zzz": val.Str("only an unrelated attribute")}}
 	for _, w := range words {
 		variants := []string{w, strings.ToLower(w), w[:1] + strings.ToLower(w[1:])}
 		for vi, wv := range variants {
@@ -141,7 +146,11 @@ func (p *c16) reserved(x *res, words []string, ctx *runner.Ctx) {
 						// on the item without the source attributes an update may legitimately fail for other
 						// reasons, but it cannot succeed either; fall through to the violation
 					}
-					x.viol("reserved-word-accepted", pos.name+"/"+[]string{"upper", "lower", "capitalized"}[vi], fmt.Sprintf("reserved word %q used as a bare attribute name (%s) is accepted: %q", wv, pos.name, expr), wit)
+					feat := pos.name + "/" + []string{"upper", "lower", "capitalized"}[vi]
+					if strings.Contains(pos.name, "path-member") {
+						feat = "path-member" // ONE listed finding: the check stops at the first step of a document path
+					}
+					x.viol("reserved-word-accepted", feat, fmt.Sprintf("reserved word %q used as a bare attribute name (%s) is accepted: %q", wv, pos.name, expr), wit)
 				}
 				// converse through an alias: must be accepted
 				if vi == 0 {
@@ -164,6 +173,9 @@ func (p *c16) reserved(x *res, words []string, ctx *runner.Ctx) {
 func aliasItem(pos c16Pos, name string) val.Item {
 	it := val.Item{"a": val.Str("x"), "l": val.List(val.Str("x"))}
 	switch pos.name {
+	case "path-member-dot", "path-member-function", "set-path-member", "remove-path-member":
+		it["mm"] = val.Map(map[string]val.V{name: val.Str("x"), "k": val.Str("x")})
+		return it
 	case "path-head-dot", "set-path-head":
 		it[name] = val.Map(map[string]val.V{"x": val.Str("x")})
 	case "path-head-index", "append-arg":
